@@ -202,30 +202,33 @@ theorem C06_overrides_nonvacuous :
 the same type, with the same value for every field name — own or inherited along the `crossref`
 chain (`bstFieldValue`, C14) — and the same `crossref` value (`bstCrossrefValue`).
 `Good K db₁ s`: `s` is a state of the run on `db₁` (`s.db = some db₁`) whose current entry (if
-any) and citations are keys of `K`.  `setDb db₂ s` is `s` with the database replaced by `db₂`.
-`SimR K db₁ db₂ r₁ r₂`: both results are the same error, or `r₁ = ok s₁`, `r₂ = ok (setDb db₂ s₁)`
-with `Good K db₁ s₁` — same stack, variables, entry variables, buffer, output lines, citations,
-current entry, preamble, reports and printed text; only the database differs. -/
+any) and citations are keys of `K`.  `setDb db₂ pfx s` is `s` with the database replaced by `db₂`
+and the reports `pfx` put in front of its reports (`pfx = []`: only the database differs).
+`SimR K db₁ db₂ pfx r₁ r₂`: both results are the same error, or `r₁ = ok s₁`,
+`r₂ = ok (setDb db₂ pfx s₁)` with `Good K db₁ s₁` — same stack, variables, entry variables,
+buffer, output lines, citations, current entry, preamble and printed text, the same reports after
+the prefix; only the database (and the prefix) differs. -/
 
 /-- THE frame theorem.  If two databases agree on the keys `K`, then from two states that differ
-in the database only, every piece of the interpreter — a popped value, a variable, a token, a
+in the database only (and in reports made earlier, `pfx`), every piece of the interpreter — a popped value, a variable, a token, a
 function body, a `while$` loop, every built-in (for every amount of fuel), `ITERATE`/`REVERSE`
 over keys of `K`, every command except `READ`, every `READ`-free program — produces results that
 again differ in the database only (or the same error). -/
-theorem C06_frame (K : List Str) (db₁ db₂ : BibData) (hA : Agree K db₁ db₂) (fuel : Nat) :
-    (∀ v s, Good K db₁ s → SimR K db₁ db₂ (execVal fuel v s) (execVal fuel v (setDb db₂ s))) ∧
-    (∀ o s, Good K db₁ s → SimR K db₁ db₂ (execObj fuel o s) (execObj fuel o (setDb db₂ s))) ∧
-    (∀ t s, Good K db₁ s → SimR K db₁ db₂ (execTok fuel t s) (execTok fuel t (setDb db₂ s))) ∧
-    (∀ ts s, Good K db₁ s → SimR K db₁ db₂ (execBody fuel ts s) (execBody fuel ts (setDb db₂ s))) ∧
-    (∀ p f s, Good K db₁ s → SimR K db₁ db₂ (whileLoop fuel p f s) (whileLoop fuel p f (setDb db₂ s))) ∧
-    (∀ b s, Good K db₁ s → SimR K db₁ db₂ (runBuiltin fuel b s) (runBuiltin fuel b (setDb db₂ s))) ∧
+theorem C06_frame (K : List Str) (db₁ db₂ : BibData) (hA : Agree K db₁ db₂) (pfx : List Interp.Report)
+    (fuel : Nat) :
+    (∀ v s, Good K db₁ s → SimR K db₁ db₂ pfx (execVal fuel v s) (execVal fuel v (setDb db₂ pfx s))) ∧
+    (∀ o s, Good K db₁ s → SimR K db₁ db₂ pfx (execObj fuel o s) (execObj fuel o (setDb db₂ pfx s))) ∧
+    (∀ t s, Good K db₁ s → SimR K db₁ db₂ pfx (execTok fuel t s) (execTok fuel t (setDb db₂ pfx s))) ∧
+    (∀ ts s, Good K db₁ s → SimR K db₁ db₂ pfx (execBody fuel ts s) (execBody fuel ts (setDb db₂ pfx s))) ∧
+    (∀ p f s, Good K db₁ s → SimR K db₁ db₂ pfx (whileLoop fuel p f s) (whileLoop fuel p f (setDb db₂ pfx s))) ∧
+    (∀ b s, Good K db₁ s → SimR K db₁ db₂ pfx (runBuiltin fuel b s) (runBuiltin fuel b (setDb db₂ pfx s))) ∧
     (∀ f keys s, (∀ k ∈ keys, k ∈ K) → Good K db₁ s →
-        SimR K db₁ db₂ (iterate fuel f keys s) (iterate fuel f keys (setDb db₂ s))) ∧
+        SimR K db₁ db₂ pfx (iterate fuel f keys s) (iterate fuel f keys (setDb db₂ pfx s))) ∧
     (∀ (inp₁ inp₂ : Input) c s, upper c.name ≠ "READ".toList → Good K db₁ s →
-        SimR K db₁ db₂ (runCommand fuel inp₁ c s) (runCommand fuel inp₂ c (setDb db₂ s))) ∧
+        SimR K db₁ db₂ pfx (runCommand fuel inp₁ c s) (runCommand fuel inp₂ c (setDb db₂ pfx s))) ∧
     (∀ (inp₁ inp₂ : Input) prog s, (∀ c ∈ prog, upper c.name ≠ "READ".toList) → Good K db₁ s →
-        SimR K db₁ db₂ (runProgram fuel inp₁ prog s) (runProgram fuel inp₂ prog (setDb db₂ s))) := by
-  obtain ⟨h1, h2, h3, h4, h5, h6⟩ := frame_all hA fuel
+        SimR K db₁ db₂ pfx (runProgram fuel inp₁ prog s) (runProgram fuel inp₂ prog (setDb db₂ pfx s))) := by
+  obtain ⟨h1, h2, h3, h4, h5, h6⟩ := frame_all (pfx := pfx) hA fuel
   exact ⟨h1, h2, h3, h4, h5, h6,
     fun f keys s hk g => iterate_sim hA fuel f keys hk s g,
     fun inp₁ inp₂ c s hc g => runCommand_sim hA fuel inp₁ inp₂ c hc s g,
@@ -294,7 +297,7 @@ theorem C06_frame_read (fuel : Nat) (inp₁ inp₂ : Input) (rd : Bst.Command) (
         ((convertDb (readParsed inp₁ s).db).addExtraCitations s.citations inp₁.minCrossrefs).1).1
       (convertDb (readParsed inp₁ s).db) (convertDb (readParsed inp₂ s).db)) :
     ∃ s₁ db₁ db₂, runCommand fuel inp₁ rd s = .ok s₁ ∧ s₁.db = some db₁ ∧
-      runCommand fuel inp₂ rd s = .ok (setDb db₂ s₁) ∧ Agree s₁.citations db₁ db₂ := by
+      runCommand fuel inp₂ rd s = .ok (setDb db₂ [] s₁) ∧ Agree s₁.citations db₁ db₂ := by
   refine ⟨readFinish inp₁ s (readParsed inp₁ s), convertDb (readParsed inp₁ s).db,
     convertDb (readParsed inp₂ s).db, runCommand_read fuel inp₁ rd s hrd, rfl, ?_, hA⟩
   rw [runCommand_read fuel inp₂ rd s hrd, readFinish_setDb inp₁ inp₂ s _ _ hpre herr hx hm]
@@ -319,7 +322,7 @@ theorem C06_frame_run (fuel : Nat) (inp₁ inp₂ : Input) (pre post : Bst.Progr
     (hpost : ∀ c ∈ post, upper c.name ≠ "READ".toList)
     (hread : ∀ s, runProgram fuel inp₁ pre { vars := initVars, citations := inp₁.citations } = .ok s →
       ∃ s₁ db₁ db₂, runCommand fuel inp₁ rd s = .ok s₁ ∧ s₁.db = some db₁ ∧
-        runCommand fuel inp₂ rd s = .ok (setDb db₂ s₁) ∧ Agree s₁.citations db₁ db₂) :
+        runCommand fuel inp₂ rd s = .ok (setDb db₂ [] s₁) ∧ Agree s₁.citations db₁ db₂) :
     run fuel (pre ++ rd :: post) inp₁ = run fuel (pre ++ rd :: post) inp₂ := by
   simp only [run, ← hcit, runProgram_append]
   rw [← runProgram_inp fuel inp₁ inp₂ pre _ hpre]
@@ -337,7 +340,7 @@ theorem C06_frame_run (fuel : Nat) (inp₁ inp₂ : Input) (pre post : Bst.Progr
       exact hk.1
     have g : Good s₁.citations db₁ s₁ :=
       ⟨hdb, fun k hk' => (by rw [hcur] at hk'; exact nomatch hk'), fun c hc => hc⟩
-    rcases (runProgram_sim hA fuel inp₁ inp₂ post hpost s₁ g).cases with ⟨e, h3, h4⟩ | ⟨s', h3, h4, -⟩ <;>
+    rcases (runProgram_sim (pfx := []) hA fuel inp₁ inp₂ post hpost s₁ g).cases with ⟨e, h3, h4⟩ | ⟨s', h3, h4, -⟩ <;>
       simp only [h3, h4]
     rfl
 
@@ -345,25 +348,75 @@ set_option maxRecDepth 10000 in
 theorem C06_frame_run_nonvacuous :
     -- the hypotheses of `C06_frame_read` / `C06_frame_run` hold for the two readers …
     (∃ s₁ d₁ d₂, runCommand 100 inp1 rdEx S0 = .ok s₁ ∧ s₁.db = some d₁ ∧
-      runCommand 100 inp2 rdEx S0 = .ok (setDb d₂ s₁) ∧ Agree s₁.citations d₁ d₂) ∧
+      runCommand 100 inp2 rdEx S0 = .ok (setDb d₂ [] s₁) ∧ Agree s₁.citations d₁ d₂) ∧
     -- … and the runs are equal
     run 100 ([] ++ rdEx :: postEx) inp1 = run 100 ([] ++ rdEx :: postEx) inp2 ∧
-    (match run 100 ([] ++ rdEx :: postEx) inp1 with | .ok o => some o.bbl | .error _ => none) = some (s "a\nb\n") := by
+    (match run 100 ([] ++ rdEx :: postEx) inp1 with | .ok o => some o.bbl | .error _ => none) = some (s "a\nb\n") ∧
+    -- the same on `.bib` text: an uncited entry added, the cited ones in the other order
+    bbl (formatFromFiles files [s "/D/refs2.bib"] (s "/D/s") [s "a", s "b"] 2 none) id =
+      bbl (formatFromFiles files [s "/D/refs.bib"] (s "/D/s") [s "a", s "b"] 2 none) id := by
   have hres : ((convertDb (readParsed inp1 S0).db).removeMissing
       ((convertDb (readParsed inp1 S0).db).addExtraCitations S0.citations inp1.minCrossrefs).1).1 = [s "a", s "b"] := by
     decide +kernel
   have hread : ∃ s₁ d₁ d₂, runCommand 100 inp1 rdEx S0 = .ok s₁ ∧ s₁.db = some d₁ ∧
-      runCommand 100 inp2 rdEx S0 = .ok (setDb d₂ s₁) ∧ Agree s₁.citations d₁ d₂ := by
+      runCommand 100 inp2 rdEx S0 = .ok (setDb d₂ [] s₁) ∧ Agree s₁.citations d₁ d₂ := by
     refine C06_frame_read 100 inp1 inp2 rdEx S0 rfl (by decide +kernel) ?_ (by decide +kernel) (by decide +kernel) ?_
     · have h1 : (readParsed inp1 S0).errs = [] := List.isEmpty_iff.1 (by decide +kernel)
       have h2 : (readParsed inp2 S0).errs = [] := List.isEmpty_iff.1 (by decide +kernel)
       rw [h1, h2]
     · rw [hres]; exact C06_frame_closure_nonvacuous
-  refine ⟨hread, ?_, by decide +kernel⟩
+  refine ⟨hread, ?_, by decide +kernel, by decide +kernel⟩
   refine C06_frame_run 100 inp1 inp2 [] postEx rdEx rfl (fun c hc => nomatch hc) rfl (by decide) ?_
   intro s hs
   cases hs
   exact hread
+
+/-- Reports made before (e.g. by `READ`: a syntax error in an uncited entry) do not matter either.
+From a state `s₁` of the run on `db₁` and the state that differs from it in the database (`db₂`)
+and in the reports made so far (`r₂` instead of `s₁.reports`), a `READ`-free program gives the
+same error, or final states that again differ only in the database and in that prefix: both
+append the same reports `R`; output lines, printed text and everything else are equal. -/
+theorem C06_frame_reports (K : List Str) (db₁ db₂ : BibData) (hA : Agree K db₁ db₂) (fuel : Nat)
+    (inp₁ inp₂ : Input) (post : Bst.Program) (hpost : ∀ c ∈ post, upper c.name ≠ "READ".toList)
+    (s₁ : St) (g : Good K db₁ s₁) (r₂ : List Interp.Report) :
+    (∃ e, runProgram fuel inp₁ post s₁ = .error e ∧
+      runProgram fuel inp₂ post { s₁ with db := some db₂, reports := r₂ } = .error e) ∨
+    (∃ t₁ R, runProgram fuel inp₁ post s₁ = .ok t₁ ∧ t₁.reports = s₁.reports ++ R ∧
+      runProgram fuel inp₂ post { s₁ with db := some db₂, reports := r₂ } =
+        .ok { t₁ with db := some db₂, reports := r₂ ++ R }) :=
+  runProgram_reports' hA fuel inp₁ inp₂ post hpost s₁ g r₂
+
+/-- `C06_frame_run` when the two `READ` steps also report different things: the two runs fail with
+the same error, or produce the same `.bbl` text and printed output, and the same reports after
+`READ` (`R`) behind the reports each run had made up to and including `READ`. -/
+theorem C06_frame_run_reports (fuel : Nat) (inp₁ inp₂ : Input) (pre post : Bst.Program) (rd : Bst.Command)
+    (hcit : inp₁.citations = inp₂.citations)
+    (hpre : ∀ c ∈ pre, upper c.name ≠ "READ".toList) (hrd : upper rd.name = "READ".toList)
+    (hpost : ∀ c ∈ post, upper c.name ≠ "READ".toList)
+    (hread : ∀ s, runProgram fuel inp₁ pre { vars := initVars, citations := inp₁.citations } = .ok s →
+      ∃ s₁ db₁ db₂ r₂, runCommand fuel inp₁ rd s = .ok s₁ ∧ s₁.db = some db₁ ∧
+        runCommand fuel inp₂ rd s = .ok { s₁ with db := some db₂, reports := r₂ } ∧
+        Agree s₁.citations db₁ db₂) :
+    (∃ e, run fuel (pre ++ rd :: post) inp₁ = .error (e, []) ∧ run fuel (pre ++ rd :: post) inp₂ = .error (e, [])) ∨
+    (∃ o₁ o₂, run fuel (pre ++ rd :: post) inp₁ = .ok o₁ ∧ run fuel (pre ++ rd :: post) inp₂ = .ok o₂ ∧
+      o₁.bbl = o₂.bbl ∧ o₁.printed = o₂.printed ∧
+      ∃ s s₁ s₂ R, runProgram fuel inp₁ pre { vars := initVars, citations := inp₁.citations } = .ok s ∧
+        runCommand fuel inp₁ rd s = .ok s₁ ∧ runCommand fuel inp₂ rd s = .ok s₂ ∧
+        o₁.reports = s₁.reports ++ R ∧ o₂.reports = s₂.reports ++ R) :=
+  run_frame_reports fuel inp₁ inp₂ pre post rd hcit hpre hrd hpost hread
+
+/-- the example readers satisfy the hypotheses (with `r₂` = the reports of the first `READ` state) -/
+theorem C06_frame_run_reports_nonvacuous :
+    ∃ s₁ d₁ d₂ r₂, runCommand 100 inp1 rdEx S0 = .ok s₁ ∧ s₁.db = some d₁ ∧
+      runCommand 100 inp2 rdEx S0 = .ok { s₁ with db := some d₂, reports := r₂ } ∧ Agree s₁.citations d₁ d₂ ∧
+      Good s₁.citations d₁ s₁ := by
+  obtain ⟨s₁, d₁, d₂, h1, h2, h3, h4⟩ := C06_frame_run_nonvacuous.1
+  refine ⟨s₁, d₁, d₂, s₁.reports, h1, h2, ?_, h4, ?_⟩
+  · rw [h3]; simp only [setDb, List.nil_append]
+  · rw [runCommand_read 100 inp1 rdEx S0 rfl] at h1
+    injection h1 with h1
+    subst h1
+    exact ⟨h2, (fun k hk => nomatch hk), fun c hc => hc⟩
 
 /-- Adding or removing an uncited, not-yet-referenced entry in the list a `bib_format` reader
 delivers changes nothing: if the key of the entry `ke` is, up to case, neither cited nor the
@@ -460,7 +513,7 @@ theorem C06_one_item_per_citation_nonvacuous :
   refine ⟨?_, fun st cits h => h, by decide +kernel, by decide +kernel, by decide +kernel, by decide +kernel⟩
   intro st k st' h hrun
   obtain ⟨h1, h2, h3, h4⟩ := h
-  simp only [fEx, execObj, execBody, execTok, runBuiltin, h1, h2, h3, h4, push, popStr, pop] at hrun
+  simp only [fEx, execObj, execBody, execTok, runBuiltin, h1, h2, h3, h4, push, pop] at hrun
   cases hrun
   exact ⟨⟨h1, h2, h3, rfl⟩, by simp [itemEx]⟩
 
